@@ -322,7 +322,17 @@ def value_like(x, depth=0):
         return True
     if isinstance(x, (tuple, frozenset)) and depth < 4:
         return all(value_like(y, depth + 1) for y in x)
-    return False
+    import types
+    if isinstance(x, (type, types.FunctionType, types.ModuleType, types.BuiltinFunctionType)):
+        return True                     # identity-stable for the life of the process
+    try:                                # the singletons (Header, GlobalData): the same object in every compile
+        from jmc.compile.utils import SingleTonMeta
+        if any(x is inst for inst in SingleTonMeta._instances.values()):
+            return True
+    except Exception:  # noqa
+        pass
+    t = type(x)                         # hashed by value (frozen dataclass with eq, NamedTuple ...): an equal key of a later compile hits the entry
+    return getattr(t, "__eq__", object.__eq__) is not object.__eq__ and getattr(t, "__hash__", None) not in (None, object.__hash__)
 
 
 class CacheAudit:
@@ -426,6 +436,8 @@ class CacheAudit:
                 except BaseException as e:  # noqa
                     if isinstance(e, (_Timeout, KeyboardInterrupt)):
                         raise
+                    if isinstance(e, OSError):      # the file / folder the entry was computed from is gone: not a statement about the memo
+                        continue
                     same, fr = False, "raises %s: %s" % (type(e).__name__, str(e)[:120])
                 self.recomputed[path] = self.recomputed.get(path, 0) + 1
                 if not same and sum(1 for x in self.witnesses if x["cache"] == path) < 6:
@@ -434,7 +446,11 @@ class CacheAudit:
                                                now=fr, stored_by=src[1], stored_at=src[0], recomputed_after=self.current[1],
                                                recomputed_at=self.current[0], hit_in_that_compile=hit))
 
-    def report(self):
+    def report(self, root=""):
+        if root:
+            for w in self.witnesses:
+                for k in ("arguments", "cached", "now"):
+                    w[k] = w[k].replace(root, "<ROOT>")
         out = []
         for path, rec in self.caches.items():
             try:
@@ -697,7 +713,7 @@ def main():
         os.chdir(cwd)
         shutil.rmtree(root, ignore_errors=True)
     sys.stdout = real_stdout
-    json.dump({"results": results, "statediff": diff, **({"audit": audit.report()} if audit else {})}, sys.stdout)
+    json.dump({"results": results, "statediff": diff, **({"audit": audit.report(str(root))} if audit else {})}, sys.stdout)
 
 
 if __name__ == "__main__":
